@@ -98,6 +98,9 @@ class Domain:
     def local_decl(self, flow, s, decl):
         pass
 
+    def loop_mode(self, flow, body):
+        return "fix"
+
     def forget(self, flow, s, sym):
         """Drop every fact whose key mentions the value symbol `sym`."""
         dead = [k for k in s.d if isinstance(k, tuple) and any(isinstance(x, str) and sym in x for x in k)]
@@ -340,6 +343,8 @@ class Flow:
         domain facts iterate on their finite lattice."""
         hv = self._loop_assigned([cond, body, inc])
         decl = set(self._declared)
+        if self.dom.loop_mode(self, body) == "once" and test_first:
+            return self._loop_once(S, cond, body, inc, hv, decl)
         tag = "L%s" % (body.get("line") or cond and cond.get("line") or "?")
         seen = set()
         exits, rets = [], []
@@ -378,6 +383,30 @@ class Flow:
                 nxt = self.effects(inc, nxt)
             work = self._havoc(nxt, hv, tag, decl)
         out = Out(self._havoc(exits, {}, tag, decl) if decl else dedupe(exits))
+        out.r = rets
+        return out
+
+    def _loop_once(self, S, cond, body, inc, hv, decl):
+        """Bounded treatment for loops without a region end inside (used by trace domains, whose
+        states do not converge): the paths 'zero iterations' and 'one representative iteration'."""
+        tag = "L%s" % (body.get("line") or "?")
+        heads = self._havoc(S, hv, tag, decl)
+        if cond is not None:
+            T, F = self.cond(cond, heads)
+        else:
+            T, F = heads, []
+        exits = list(F)
+        rets = []
+        if T:
+            o = self.stmt(body, T)
+            exits += o.b
+            rets += o.r
+            nxt = o.n + o.c
+            if inc is not None and nxt:
+                nxt = self.effects(inc, nxt)
+            nxt = self._havoc(nxt, hv, tag + "'", decl)
+            exits += nxt
+        out = Out(dedupe(exits))
         out.r = rets
         return out
 
